@@ -115,3 +115,29 @@ if "C16f" in which:
         ("c16f_premise_needed_short_sale", "float_c16_counterexample_short_sale", "The magnitude premise cannot be replaced by a bound on the deposit and the prices alone: a weight of -2^50 makes the strategy sell short 2^50-odd shares (a sale of a symbol not held passes the gate whatever its size) and a later snapshot reads 1024 for a deposit of 1000 — rounding at 2^60.", True),
         ("c16f_premise_needed_infinite_order", "float_c16_counterexample_infinite_order", "… and a weight of -2^1023 puts an order for infinitely many shares on the exchange; the last snapshot is NaN.", True),
     ])
+
+IMPF10 = """From Coq Require Import ZArith NArith List Bool String Floats Reals.
+From Flocq Require Import Core.Raux IEEE754.BinarySingleNaN IEEE754.PrimFloat.
+From Alator Require Import Model.Num Model.Quirks Model.Cost Model.Exchange Model.Uist Model.Broker
+  Proofs.BrokerLedgerProofs Proofs.FloatExact Proofs.FloatCash Proofs.FloatWorth Proofs.FloatLiq.
+Import ListNotations.
+Local Open Scope list_scope.
+(* the infix comparisons below are those of the IEEE instance built on the statement's own libm table *)
+Local Hint Extern 0 (Num float) => match goal with t : libm_table |- _ => exact (FloatNum t) end : typeclass_instances."""
+if "C10f" in which:
+    gen("C10float", "C10 AT THE IEEE binary64 INSTANCE for whole-unit data: the sales queued by a successful liquidation "
+        "are worth AT LEAST the request in exact integers — no tolerance. Statements only. `int_float x n`: the binary64 x "
+        "is finite and equals the integer n; `zb s` is the whole-unit last seen bid of symbol s; `lrel b zh` ties the "
+        "float broker to integer holdings zh (positive quantities, bids >= 1, every position worth less than 2^53); "
+        "`zliq` is the integer twin of the liquidation loop, `zcdiv a b` the integer ceiling of a / b, `zvalue` the "
+        "integer worth of a list of (symbol, quantity) at the bids, `znz` drops zero quantities, `sell_reads o (s, q)` "
+        "says order o is a price-less market sell of q shares of s. Depends on the specification axioms the standard "
+        "library declares for primitive floats / 63-bit integers and the classical reals (Flocq).", IMPF10, [
+        ("c10f_integer_division", "div_ceil_int", "Integer division through floats: for integers 0 <= a < 2^53 and 0 < b, ceil(a / b) computed in binary64 is the float of the mathematical ceiling — the rounding of the quotient never moves it across an integer (a non-integer a / b is at least 1 / b away from every integer, half an ulp of the quotient is smaller).", True),
+        ("c10f_loop", "liq_loop_float", "The loop, any iteration order: the float run is the integer run (remaining amount and every quantity), only market sells of distinct held symbols for at most the holding, and when nothing is left to raise the sells are worth at least the request — in exact integers.", True),
+        ("c10f_call", "liquidation_float", "The call, ANY cost list: on WithdrawSuccess the forwarded orders are exactly the non-zero sells of the loop, every one accepted by the gate, each for at most the position, distinct symbols, worth at least the request in integers; on WithdrawFailure nothing is queued and the broker is unchanged.", True),
+        ("c10f_verdict", "liquidation_float_verdict", "Without costs the verdict itself is the integer verdict: success iff the request is covered by cash + positions and by the positions alone.", True),
+        ("c10f_rebalance", "rebalance_float", "The request of the automatic cash rebalancing (shortfall + 1000 for integer negative cash): the same, and Failed exactly on the failure branch with nothing queued.", True),
+        ("c10f_example", "exl_theorem_instance", "Non-vacuity, kernel-evaluated and instantiated: ABC 5 @ 100, BCD 30 @ 10, cash 165, request 650: sells ABC 5 and BCD 15, worth 650.", True),
+        ("c10f_why_whole_units", "exf_fractional_shortfall", "Why whole units: with the binary64 bid nearest 147.2 and 47 840 to raise, 47840 / bid evaluates to exactly 325, the call reports success, and 325 x bid is less than 47 840 in binary64 — for fractional data the clause holds over the reals only (Props/C10.v).", True),
+    ])
